@@ -714,6 +714,10 @@ func runC01(c *Ctx) {
 		for j, st := range p.SampleType {
 			st.Type = fmt.Sprintf("%s%d", st.Type, j)
 		}
+		if i%3 == 0 && len(p.Mapping) > 0 { // a URL-looking mapping name without build id: kept as it is inside a session
+			m := p.Mapping[r.Intn(len(p.Mapping))]
+			m.File, m.BuildID = PickS(r, []string{"file:1", "http://h/x", "x:y"}), ""
+		}
 		fn := "."
 		if len(p.Function) > 0 {
 			fn = regexp.QuoteMeta(p.Function[r.Intn(len(p.Function))].Name)
@@ -728,7 +732,9 @@ func runC01(c *Ctx) {
 			{},
 		}[i%7]
 		lines := append(append([]string{}, pre...), "proto >b.pb")
-		c.Case("session-proto", L(S("driverproto"), DumpProfile(p), c01AbsURLFiles(p)), c01SessionProto(p, lines, "b.pb"), true,
+		// the session gets the profile as fetchProfiles would hand it over: no mapping is un-sourced on this
+		// path (that happens once, during the fetch), so the list of URL-looking files is empty here
+		c.Case("session-proto", L(S("driverproto"), DumpProfile(p), Ss(nil)), c01SessionProto(p, lines, "b.pb"), true,
 			"op:driverproto", fmt.Sprintf("history:%d", i%7))
 	}
 	{ // witness of F34, always generated: a build-id-less mapping whose file name looks like a URL
